@@ -242,7 +242,7 @@ def gen_valid(chk):
     # big payloads (BTSD length heads of 3 and 5 octets); the model side is compared through digests (big_suite)
     for size in ([700, 4000] if chk.quick() else [4000, 65535, 65536, 65537]):
         cases.append(('big', bg.gen_bundle(rng, payload_sizes=(size,), admin=False, n_ext=1, **safe)))
-    for _ in range(300 if chk.quick() else 20000):
+    for _ in range(200 if chk.quick() else 20000):
         cases.append(('random', bg.gen_bundle(rng, **safe)))
     return cases
 
@@ -809,7 +809,7 @@ def run_all(chk, gens):
     reqs = [next(gen) for gen in gens]
     tick(chk, 'implementation side done, %d model evaluations' % sum(len(req) for req in reqs))
     flat = [term for req in reqs for term in req]
-    res = chk.coq_eval('all', ['Lib.Cbor', 'Lib.Crc', 'Model.Bundle'], flat, '(fun x => x)', chunk=max(16, (len(flat) + 31) // 32),
+    res = chk.coq_eval('all', ['Lib.Cbor', 'Lib.Crc', 'Model.Bundle'], flat, '(fun x => x)', chunk=max(16, (len(flat) + 15) // 16),
                        prelude=RUN_CASE + BIG_ENC + BIG_DEC)
     tick(chk, 'model side done')
     outs = []
